@@ -32,7 +32,8 @@ def gen_calls(rnd, n):
         for fmt in ('csv', 'parquet'):
             for rop in (True, False):
                 calls.append({'id': 'g%d.%s.%d' % (i, fmt, rop), 'api': 'run', 'script': '\n'.join(lines), 'env': env,
-                              'folder': fmt, 'rop': rop, 'form': rnd.choice(['df', 'csv']) if _csv_safe(env) else 'df'})
+                              'folder': fmt, 'rop': rop, 'form': rnd.choice(['df', 'csv']) if _csv_safe(env) else 'df',
+                              'kw': {'time_period_output_format': ['vtl', 'sdmx_reporting', 'natural', 'vtl'][i % 4]}})
     return calls
 
 
